@@ -1,5 +1,6 @@
 SPECIFICATION Spec
-CONSTANTS MODES = {19}
+CONSTANTS T16ALL = FALSE
+          MODES = {19}
 INVARIANT WellFormed
 INVARIANT Executes
 INVARIANT SpecOK
